@@ -143,7 +143,15 @@ def r2(ctx):
     if len(ors) != 1 or len(asg) != 1:
         raise AnalysisBroken('C10.R2: store sites in writeRawValue not recognised (%d |=, %d =)' % (len(ors), len(asg)))
     atoms = set((a[0], a[1]) for a in fn.atoms(ors[0]))
-    need = [('(index == start)', True), ('((this.m_bitCount % #8) == #0)', False)]
+    # "first byte of the field": the loop cursor still equals the value it was initialised with
+    first = None
+    for l in fn.all('ForStmt'):
+        dds = fn.nodes.get(fn.nodes[l].get('init'), {}).get('decls', [])
+        if dds and 'init' in dds[0] and dds[0]['name'] in fn.key(fn.nodes[ors[0]]['lhs']):
+            first = '(%s == %s)' % (dds[0]['name'], fn.key(dds[0]['init']))
+    if first is None:
+        raise AnalysisBroken('C10.R2: byte loop of writeRawValue not recognised')
+    need = [(first, True), ('((this.m_bitCount % #8) == #0)', False)]
     missing = [a for a in need if a not in atoms]
     inside = any('getCalculatedDataSize()' in k and p and ' < ' in k for k, p in atoms)
     ctx.ob('C10.R2', fn, ors[0], not missing and inside, 'OR into existing byte', 'missing %s; inside written data: %s' % (missing, inside))
